@@ -212,10 +212,14 @@ fn cmd_check(args: &[String]) -> i32 {
     let threads: usize = arg_value(args, "--threads").and_then(|s| s.parse().ok()).unwrap_or_else(|| std::thread::available_parallelism().map(|n| n.get()).unwrap_or(4).min(16));
     let fp_log = arg_value(args, "--fp-log");
     let evidence_path = arg_value(args, "--evidence").unwrap_or_else(|| "/verif/evidence/C20.json".to_string());
-    println!("VERIF_SEED={seed} property=C20 tier={tier} scenarios<={n} threads={threads}");
+    // the slice of the seed's scenario index space this process covers (the thorough tier is run as
+    // several processes, one slice each: the framework's test request leaks a few KB per request)
+    let first: u64 = arg_value(args, "--from").and_then(|s| s.parse().ok()).unwrap_or(0);
+    let n = first + n;
+    println!("VERIF_SEED={seed} property=C20 tier={tier} scenarios {first}..{n} threads={threads}");
 
     let start = Instant::now();
-    let next = AtomicU64::new(0);
+    let next = AtomicU64::new(first);
     let stop = AtomicBool::new(false);
     let total = Mutex::new(Stats::default());
     let bad: Mutex<Vec<(u64, Scenario, ScenarioResult)>> = Mutex::new(vec![]);
@@ -240,7 +244,7 @@ fn cmd_check(args: &[String]) -> i32 {
                         if fp_log.is_some() {
                             local.push((i, res.fingerprint));
                         }
-                        if i < 3 {
+                        if i < first + 3 {
                             st.samples.push(serde_json::json!({"scenario_index": i, "scenario": scn.to_json(), "schedule": res.choices, "trace": res.trace}));
                         }
                         if !res.violations.is_empty() {
@@ -318,7 +322,7 @@ fn cmd_check(args: &[String]) -> i32 {
             "simulated_time": {"unit": "executor steps (discrete-event: the clock jumps to the next scheduled wake when nothing is runnable)", "steps": stats.steps},
             "scenarios_per_hour": if wall > 0.0 { (stats.scenarios as f64 / wall * 3600.0) as u64 } else { 0 },
             "requests_per_hour": if wall > 0.0 { (stats.requests as f64 / wall * 3600.0) as u64 } else { 0 },
-            "seeds": {"VERIF_SEED": seed, "scenario_index_from": 0, "scenarios_completed": stats.scenarios},
+            "seeds": {"VERIF_SEED": seed, "scenario_index_from": first, "scenario_index_to_exclusive_upper_bound": n, "scenarios_completed": stats.scenarios},
             "distinct_traces": stats.fingerprints.len(),
             "faults_and_schedule": faults,
             "reach_probes": probes,
